@@ -21,14 +21,14 @@ Print Assumptions C03_model_shape_matches_source.
    variable that was never written reads as before.  Parameters, .f and declared locals live in
    a frame above the caller's levels, so they are gone.  Holds because the pop sits in `finally`
    (regenerated flag). *)
-Theorem C03_frames : forall fm fuel st e r st',
-  eval eval_fn_pop_in_finally fm fuel st e = (r, st') ->
+Theorem C03_frames : forall fm tx pf fuel st e r st',
+  eval eval_fn_pop_in_finally fm tx pf fuel st e = (r, st') ->
   length (frames st') = length (frames st) /\
   exists w, log st' = w ++ log st /\
     (forall v j, ~ In (v, j) w -> lvl (frames st') j v = lvl (frames st) j v) /\
     (forall v, (forall j, ~ In (v, j) w) -> ctx_lookup v (frames st') = ctx_lookup v (frames st)).
 Proof.
-  exact (eq_ind_r (fun f => forall fm fuel st e r st', eval f fm fuel st e = (r, st') ->
+  exact (eq_ind_r (fun f => forall fm tx pf fuel st e r st', eval f fm tx pf fuel st e = (r, st') ->
             length (frames st') = length (frames st) /\
             exists w, log st' = w ++ log st /\
               (forall v j, ~ In (v, j) w -> lvl (frames st') j v = lvl (frames st) j v) /\
@@ -39,21 +39,21 @@ Print Assumptions C03_frames.
 
 (* T3.resume (observable part): an evaluation that wrote nothing — e.g. a call that failed before
    any assignment — leaves every variable reading as if it had not happened. *)
-Theorem C03_failed_call_invisible : forall fm fuel st e r st',
-  eval eval_fn_pop_in_finally fm fuel st e = (r, st') -> log st' = log st ->
+Theorem C03_failed_call_invisible : forall fm tx pf fuel st e r st',
+  eval eval_fn_pop_in_finally fm tx pf fuel st e = (r, st') -> log st' = log st ->
   length (frames st') = length (frames st) /\ forall v, ctx_lookup v (frames st') = ctx_lookup v (frames st).
 Proof.
-  exact (eq_ind_r (fun f => forall fm fuel st e r st', eval f fm fuel st e = (r, st') -> log st' = log st ->
+  exact (eq_ind_r (fun f => forall fm tx pf fuel st e r st', eval f fm tx pf fuel st e = (r, st') -> log st' = log st ->
             length (frames st') = length (frames st) /\ forall v, ctx_lookup v (frames st') = ctx_lookup v (frames st))
-           (fun fm fuel st e r st' H HL =>
-              conj (proj1 (frames_restored fm fuel st e r st' H)) (frames_untouched fm fuel st e r st' H HL))
+           (fun fm tx pf fuel st e r st' H HL =>
+              conj (proj1 (frames_restored fm tx pf fuel st e r st' H)) (frames_untouched fm tx pf fuel st e r st' H HL))
            (eq_refl : eval_fn_pop_in_finally = true)).
 Qed.
 Print Assumptions C03_failed_call_invisible.
 
 (* without the `finally` the statement is false: a call whose body raises leaves its frame behind *)
 Theorem C03_frames_refuted_without_finally :
-  exists e r st', eval false true 5 init_state e = (r, st') /\
+  exists e r st', eval false true true (fun _ _ => Err EType) 5 init_state e = (r, st') /\
                   length (frames st') <> length (frames init_state).
 Proof.
   exists (TFn true (TOp2 Add (TInt 1) (TStr [97])) (Some []) 0).
@@ -71,9 +71,20 @@ Example C03_frames_example :
   let p := TFn false (TSeq [TArr [TSym nB]; TOp2 Define (TSym nB) (TInt 0);
                             TFn true (TSym nQ) (Some [TSym nX]) 1]) None 1 in
   let st := mk_state [[(nA, TInt 1); (nB, TArr [TInt 1; TInt 2]); (nC, TInt 0); (nP, p); (nQ, q)]] [] in
-  let '(r, st') := eval true true 30 st (TFn true (TSym nP) (Some [TInt 5]) 1) in
+  let '(r, st') := eval true true true (fun _ _ => Err EType) 30 st (TFn true (TSym nP) (Some [TInt 5]) 1) in
   r = Err EType /\ length (frames st') = 1%nat /\ log st' = [(nC, 0%nat); (nA, 2%nat); (nB, 1%nat)] /\
   ctx_lookup nA (frames st') = Some (TInt 1) /\ ctx_lookup nC (frames st') = Some (TInt 1).
+Proof. vm_compute. repeat split; reflexivity. Qed.
+
+(* Non-vacuity for the Python-callable path: g::{[a];a::x*2;boom(a)} with boom a Python callable
+   that raises; g(7) fails, depth and the global a = 100 are as before *)
+Example C03_frames_python_callable_example :
+  let nA := 10 in let nG := 11 in let nBoom := 12 in
+  let g := TFn false (TSeq [TArr [TSym nA]; TOp2 Define (TSym nA) (TOp2 Mul (TSym nX) (TInt 2));
+                            TFn true (TSym nBoom) (Some [TSym nA]) 1]) None 1 in
+  let st := mk_state [[(nA, TInt 100); (nG, g); (nBoom, TFn true (TPy 0 [nX]) None 1)]] [] in
+  let '(r, st') := eval true true true (fun _ _ => Err EType) 30 st (TFn true (TSym nG) (Some [TInt 7]) 1) in
+  r = Err EType /\ length (frames st') = 1%nat /\ ctx_lookup nA (frames st') = Some (TInt 100) /\ log st' = [(nA, 1%nat)].
 Proof. vm_compute. repeat split; reflexivity. Qed.
 
 (* T3.merge — merge_projections, as the regenerated loop skeleton has it, IS positional hole
@@ -116,42 +127,60 @@ Proof. reflexivity. Qed.
 (* T3.cond — a conditional evaluates its condition, then exactly the branch selected by Klong
    truth; the other branch is not evaluated at all (it can be replaced by anything, including a
    diverging or raising program, without changing result or state). *)
-Theorem C03_cond_selects : forall fin fm fuel st c a b q st1,
-  call fin fm fuel st c = (Ok q, st1) ->
-  (truthy q = true -> forall b', eval fin fm (S fuel) st (TCond c a b') = call fin fm fuel st1 a) /\
-  (truthy q = false -> forall a', eval fin fm (S fuel) st (TCond c a' b) = call fin fm fuel st1 b).
+Theorem C03_cond_selects : forall fin fm tx pf fuel st c a b q st1,
+  call fin fm tx pf fuel st c = (Ok q, st1) ->
+  (truthy tx q = true -> forall b', eval fin fm tx pf (S fuel) st (TCond c a b') = call fin fm tx pf fuel st1 a) /\
+  (truthy tx q = false -> forall a', eval fin fm tx pf (S fuel) st (TCond c a' b) = call fin fm tx pf fuel st1 b).
 Proof. exact cond_selects. Qed.
 Print Assumptions C03_cond_selects.
 
-(* Klong truth: exactly 0, [] and "" are false (TSeq [] is Python's empty list, the empty program) *)
+(* Klong truth: exactly 0 (the integer 0, the reals +0.0 and -0.0), [] and "" are false (TSeq [] is
+   Python's empty list, the empty program); every other value — tiny reals such as 1.0e-300
+   included — is true.  Closed over the regenerated fact that the zero test is `q == 0`. *)
 Theorem C03_cond_truth : forall q,
-  truthy q = false <-> (q = TInt 0 \/ q = TArr [] \/ q = TStr [] \/ q = TSeq []).
-Proof. exact truthy_false_iff. Qed.
+  truthy cond_zero_test_is_exact q = false <->
+  (q = TInt 0 \/ (exists b, q = TReal b /\ real_is_zero b = true) \/ q = TArr [] \/ q = TStr [] \/ q = TSeq []).
+Proof.
+  exact (eq_ind_r (fun f => forall q, truthy f q = false <->
+            (q = TInt 0 \/ (exists b, q = TReal b /\ real_is_zero b = true) \/ q = TArr [] \/ q = TStr [] \/ q = TSeq []))
+           truthy_false_iff (eq_refl : cond_zero_test_is_exact = true)).
+Qed.
 Print Assumptions C03_cond_truth.
 
+(* with a tolerance comparison instead of `== 0` the statement is false: 1.0e-9 selects the else branch *)
+Theorem C03_cond_truth_refuted_with_tolerance :
+  exists q, truthy false q = false /\
+    ~ (q = TInt 0 \/ (exists b, q = TReal b /\ real_is_zero b = true) \/ q = TArr [] \/ q = TStr [] \/ q = TSeq []).
+Proof.
+  exists (TReal 4472406533629990549).
+  split; [vm_compute; reflexivity|].
+  intros [H|[(b & H & Hb)|[H|[H|H]]]]; try discriminate H.
+  inversion H; subst. vm_compute in Hb. discriminate Hb.
+Qed.
+
 Example C03_cond_example :
-  fst (eval true true 9 init_state (TCond (TStr []) (TOp2 Add (TInt 1) (TStr [97])) (TInt 2))) = Ok (TInt 2) /\
-  fst (eval true true 9 init_state (TCond (TArr [TInt 0]) (TInt 1) (TOp2 Add (TInt 1) (TStr [97])))) = Ok (TInt 1).
+  fst (eval true true true (fun _ _ => Err EType) 9 init_state (TCond (TStr []) (TOp2 Add (TInt 1) (TStr [97])) (TInt 2))) = Ok (TInt 2) /\
+  fst (eval true true true (fun _ _ => Err EType) 9 init_state (TCond (TArr [TInt 0]) (TInt 1) (TOp2 Add (TInt 1) (TStr [97])))) = Ok (TInt 1).
 Proof. vm_compute. split; reflexivity. Qed.
 
 (* T3.subst, part 1 — all call forms enter the body b in the same way (`enter`: evaluate the
    arguments left to right in the caller's context, push x y z .f, run b, pop):
    the direct call {b}(args), the call g(args) through a variable, g@[vals], and .f(args). *)
-Theorem C03_call_forms : forall fin fm fuel st b args n,
+Theorem C03_call_forms : forall fin fm tx pf fuel st b args n,
   op_rooted b = true -> existsb is_none args = false -> (n <= length args)%nat ->
-  eval fin fm (S fuel) st (TFn true b (Some args) n) = enter fin fm fuel st b args /\
+  eval fin fm tx pf (S fuel) st (TFn true b (Some args) n) = enter fin fm tx pf fuel st b args /\
   (forall g c0 n', (0 < n')%nat -> is_reserved g = false -> ctx_lookup g (frames st) = Some (TFn c0 b None n) ->
-     eval fin fm (S fuel) st (TFn true (TSym g) (Some args) n') = enter fin fm fuel st b args) /\
+     eval fin fm tx pf (S fuel) st (TFn true (TSym g) (Some args) n') = enter fin fm tx pf fuel st b args) /\
   (forall g c0, ctx_lookup g (frames st) = Some (TFn c0 b None n) ->
-     eval fin fm (S (S fuel)) st (TOp2 At (TSym g) (TArr args)) = enter fin fm fuel st b args) /\
+     eval fin fm tx pf (S (S fuel)) st (TOp2 At (TSym g) (TArr args)) = enter fin fm tx pf fuel st b args) /\
   (ctx_lookup nDotF (frames st) = Some b ->
-     eval fin fm (S fuel) st (TFn true (TSym nDotF) (Some args) n) = enter fin fm fuel st b args).
+     eval fin fm tx pf (S fuel) st (TFn true (TSym nDotF) (Some args) n) = enter fin fm tx pf fuel st b args).
 Proof.
-  exact (fun fin fm fuel st b args n Hb Hh Hn =>
-    conj (direct_call fin fm fuel st b args n Hb Hh Hn)
-   (conj (fun g c0 n' Hp Hg Hl => var_call fin fm fuel st g c0 b args n n' Hb Hh Hn Hp Hg Hl)
-   (conj (fun g c0 Hl => at_call fin fm fuel st g c0 b args n Hb Hh Hn Hl)
-         (fun Hl => dotf_call fin fm fuel st b args n Hb Hh Hn Hl)))).
+  exact (fun fin fm tx pf fuel st b args n Hb Hh Hn =>
+    conj (direct_call fin fm tx pf fuel st b args n Hb Hh Hn)
+   (conj (fun g c0 n' Hp Hg Hl => var_call fin fm tx pf fuel st g c0 b args n n' Hb Hh Hn Hp Hg Hl)
+   (conj (fun g c0 Hl => at_call fin fm tx pf fuel st g c0 b args n Hb Hh Hn Hl)
+         (fun Hl => dotf_call fin fm tx pf fuel st b args n Hb Hh Hn Hl)))).
 Qed.
 Print Assumptions C03_call_forms.
 
@@ -159,18 +188,18 @@ Print Assumptions C03_call_forms.
    + - * , # = <, conditionals) with arguments that evaluated to data values vs gives the value of
    the body with x y z textually replaced by vs, evaluated in the caller's context; the caller's
    context is as the argument evaluation left it. *)
-Theorem C03_subst : forall fm fuel st b args vs st1 k,
-  pure b -> eval_args (eval eval_fn_pop_in_finally fm fuel) st (firstn 3 args) = (Some vs, k, st1) ->
+Theorem C03_subst : forall fm tx pf fuel st b args vs st1 k,
+  pure b -> eval_args (eval eval_fn_pop_in_finally fm tx pf fuel) st (firstn 3 args) = (Some vs, k, st1) ->
   (forall v, In v vs -> self_eval v = true) ->
   names_bound (combine [nX; nY; nZ] vs) (frames st1) b ->
-  enter eval_fn_pop_in_finally fm fuel st b args =
-    (fst (eval eval_fn_pop_in_finally fm fuel st1 (subst (combine [nX; nY; nZ] vs) b)), st1).
+  enter eval_fn_pop_in_finally fm tx pf fuel st b args =
+    (fst (eval eval_fn_pop_in_finally fm tx pf fuel st1 (subst (combine [nX; nY; nZ] vs) b)), st1).
 Proof.
-  exact (eq_ind_r (fun f => forall fm fuel st b args vs st1 k,
-            pure b -> eval_args (eval f fm fuel) st (firstn 3 args) = (Some vs, k, st1) ->
+  exact (eq_ind_r (fun f => forall fm tx pf fuel st b args vs st1 k,
+            pure b -> eval_args (eval f fm tx pf fuel) st (firstn 3 args) = (Some vs, k, st1) ->
             (forall v, In v vs -> self_eval v = true) ->
             names_bound (combine [nX; nY; nZ] vs) (frames st1) b ->
-            enter f fm fuel st b args = (fst (eval f fm fuel st1 (subst (combine [nX; nY; nZ] vs) b)), st1))
+            enter f fm tx pf fuel st b args = (fst (eval f fm tx pf fuel st1 (subst (combine [nX; nY; nZ] vs) b)), st1))
            enter_is_subst (eq_refl : eval_fn_pop_in_finally = true)).
 Qed.
 Print Assumptions C03_subst.
@@ -181,7 +210,7 @@ Example C03_subst_example :
   let b := TCond (TOp2 Lt (TSym nX) (TSym nY)) (TOp2 Add (TSym nX) (TSym nA)) (TOp2 Mul (TSym nY) (TInt 2)) in
   let st := mk_state [[(nA, TInt 10)]] [] in
   let args := [TInt 3; TOp2 Add (TInt 1) (TInt 4)] in
-  eval true true 21 st (TFn true b (Some args) 2) = (Ok (TInt 13), st) /\
-  eval_args (eval true true 20) st (firstn 3 args) = (Some [TInt 3; TInt 5], EType, st) /\
-  eval true true 20 st (subst (combine [nX; nY; nZ] [TInt 3; TInt 5]) b) = (Ok (TInt 13), st).
+  eval true true true (fun _ _ => Err EType) 21 st (TFn true b (Some args) 2) = (Ok (TInt 13), st) /\
+  eval_args (eval true true true (fun _ _ => Err EType) 20) st (firstn 3 args) = (Some [TInt 3; TInt 5], EType, st) /\
+  eval true true true (fun _ _ => Err EType) 20 st (subst (combine [nX; nY; nZ] [TInt 3; TInt 5]) b) = (Ok (TInt 13), st).
 Proof. vm_compute. repeat split; reflexivity. Qed.
